@@ -1,6 +1,7 @@
 package grammar
 
 import (
+	"unicode/utf8"
 	"fmt"
 	"go/token"
 	"go/types"
@@ -596,8 +597,9 @@ func (e *eng) opTables(binOps, unOps []string) {
 func (e *eng) t2t3() {
 	sticky, ok1 := e.constStr("lexer", "stickyChars")
 	nonSticky, ok2 := e.constStr("lexer", "nonStrickyChars")
-	if !ok1 || !ok2 {
-		e.s.Unk("ANCHOR", "lexer character classes", "-", "constants not found")
+	byLexer := !ok1 || !ok2 // no character class constants: the lexer itself is asked
+	if byLexer && e.lexKind("+") == "" {
+		e.s.Unk("ANCHOR", "lexer character classes", "-", "no character class constants, and the lexer could not be evaluated on a literal")
 		return
 	}
 	seen := map[string]bool{}
@@ -609,6 +611,10 @@ func (e *eng) t2t3() {
 			kind := ""
 			switch {
 			case g.Str == "":
+			case byLexer:
+				if k := e.lexKind(g.Str); k != "" {
+					kind = "the lexer scans it as one " + k + " token"
+				}
 			case allIn(g.Str, sticky):
 				kind = "a run of operator characters"
 			case len(g.Str) == 1 && strings.Contains(nonSticky, g.Str):
@@ -659,6 +665,90 @@ func (e *eng) constStr(rel, name string) (string, bool) {
 		return "", false
 	}
 	return found[0], true
+}
+
+// lexKind asks the lexer itself what a literal of the grammar is: the text is
+// scanned by the real NewLexer / Next (interpreted on the concrete text, the
+// rune reader replaced by a cursor over it); the answer is the kind of the
+// first token when that token is the whole text, "" otherwise.
+func (e *eng) lexKind(text string) string {
+	if e.lexMemo == nil {
+		e.lexMemo = map[string]string{}
+	}
+	if k, ok := e.lexMemo[text]; ok {
+		return k
+	}
+	e.lexMemo[text] = ""
+	nl := e.p.Func("lexer", "NewLexer")
+	next := e.p.Method("lexer", "Lexer", "Next")
+	if nl == nil || next == nil || text == "" {
+		return ""
+	}
+	kinds := e.p.ConstsOfType("types/token", "Kind")
+	in := absint.NewInterp(e.p.SSA, &absint.Oracle{})
+	if sp := e.p.SPkg("lexer"); sp != nil {
+		if g, end := absint.InitGlobals(e.p.SSA, sp); end == nil {
+			in.Globals = g
+		}
+	}
+	pos := 0
+	in.Hooks.Call = func(in *absint.Interp, fn *ssa.Function, args []absint.Val, site ssa.Instruction) (absint.Val, bool) {
+		switch fn.String() {
+		case "strings.NewReader":
+			return absint.NewVar("reader", fn.Signature.Results().At(0).Type()), true
+		case "(*strings.Reader).ReadRune":
+			errT := types.Universe.Lookup("error").Type()
+			if pos >= len(text) {
+				return &absint.Tuple{E: []absint.Val{absint.MkIntT(0, types.Typ[types.Rune]), absint.MkInt(0), absint.NewVar("EOFERR", errT)}}, true
+			}
+			r, w := utf8.DecodeRuneInString(text[pos:])
+			pos += w
+			return &absint.Tuple{E: []absint.Val{absint.MkIntT(int64(r), types.Typ[types.Rune]), absint.MkInt(int64(w)), absint.Const{T: errT}}}, true
+		}
+		return absint.StdCall(in, fn, args)
+	}
+	lex, end := in.Run(nl, []absint.Val{absint.MkString(text)})
+	lst, ok := lex.(*absint.Struct)
+	if end != nil || !ok {
+		return ""
+	}
+	cell := in.NewCell(lst, "lexer")
+	res, end := in.Run(next, []absint.Val{&absint.Ptr{Cell: cell}})
+	if b, ok := absint.ConstBool(res); end != nil || !ok || !b {
+		return ""
+	}
+	cur, ok := cell.V.(*absint.Struct)
+	if !ok {
+		return ""
+	}
+	for _, fv := range cur.F {
+		tk, ok := fv.(*absint.Struct)
+		if !ok || !strings.HasSuffix(tk.T.String(), "types/token.Type") {
+			continue
+		}
+		kind, val := "", ""
+		for _, tf := range tk.F {
+			if c, ok := tf.(absint.Const); ok && c.T != nil {
+				if n, isN := c.T.(*types.Named); isN && n.Obj().Name() == "Kind" {
+					if kv, ok := absint.ConstInt(c); ok {
+						for name, v := range kinds {
+							if v == kv {
+								kind = name
+							}
+						}
+					}
+				}
+			}
+			if sv, ok := absint.ConstString(tf); ok && val == "" {
+				val = sv
+			}
+		}
+		if val == text {
+			e.lexMemo[text] = kind
+			return kind
+		}
+	}
+	return ""
 }
 
 func allIn(s, set string) bool {
@@ -893,10 +983,15 @@ func (e *eng) wrapsAsOperator(op string) (isOp bool, ok bool) {
 	}
 	tokT := tokPkg.Types.Scope().Lookup("Type").Type()
 	kinds := e.p.ConstsOfType("types/token", "Kind")
-	sticky, _ := e.constStr("lexer", "stickyChars")
+	sticky, okS := e.constStr("lexer", "stickyChars")
 	kind := "NotSticky"
 	if allIn(op, sticky) {
 		kind = "Sticky"
+	}
+	if !okS {
+		if k := e.lexKind(op); k != "" {
+			kind = k
+		}
 	}
 	tst := tokT.Underlying().(*types.Struct)
 	o := &absint.Oracle{}
